@@ -29,9 +29,11 @@ Step ==
          modelAns == PollAnswer(q0[k], h0, c, k)
          must == MustAnswer(q0[k], h0, s0, c, k)
          q1 == IF e.ev = "webhook" THEN [q0 EXCEPT ![k] = WebhookCache(q0[k], c, e.s)]
-               ELSE IF e.ev = "poll" THEN [q0 EXCEPT ![k] = PollCache(q0[k], h0, c, k)] ELSE q0
-         sn == IF (e.ev = "webhook" /\ e.s = "SUCCESSFUL") \/ (e.ev = "poll" /\ e.s = "SUCCESSFUL")
-               THEN s0 \cup {<<c, k>>} ELSE s0
+               ELSE IF e.ev = "poll" THEN PollAll(q0, h0, c, k) ELSE q0
+         sn == IF e.ev = "webhook" /\ e.s = "SUCCESSFUL" THEN s0 \cup {<<c, k>>}
+               ELSE IF e.ev = "poll" THEN s0 \cup PollSees(q0, h0, c, k)
+                                           \cup (IF e.s = "SUCCESSFUL" THEN {<<c, k>>} ELSE {})
+               ELSE s0
      IN /\ host' = IF e.ev = "hostset" THEN [h0 EXCEPT ![<<c, k>>] = e.s] ELSE h0
         /\ cache' = q1
         /\ seen' = Keep(sn, q1)
